@@ -802,8 +802,12 @@ def add_join_repeat(rng, p):
     qs = [r for r in rels if r[1] >= 2]
     if not qs:
         return None
-    q = rng.choice(qs)
+    # prefer relations no rule writes: their sizes at run time are the sizes of the input (the join order is chosen from the sizes)
+    derived = {h[0] for r in p["rules"] for h in r["heads"]}
+    qs = [r for r in qs if r[0] not in derived] or qs
+    q = rng.choice([r for r in qs if r[1] >= 3] or qs) if rng.random() < 0.5 else rng.choice(qs)
     others = [r for r in rels if r[0] != q[0]]
+    others = [r for r in others if r[0] not in derived] or others
     pr = rng.choice(others) if others and rng.random() < 0.9 else q
     top = max(level.values()) if level else 0
     heads_ok = [r for r in rels if level.get(r[0], 0) == top]
@@ -812,6 +816,8 @@ def add_join_repeat(rng, p):
     ppos = rng.randrange(pr[1])
     x = pvars[ppos]
     i, j = sorted(rng.sample(range(q[1]), 2))
+    if q[1] >= 3 and rng.random() < 0.5:
+        i, j = 0, q[1] - 1            # the two occurrences NOT next to each other (another column in between)
     qargs, nv, scope = [], pr[1], list(pvars)
     for k in range(q[1]):
         if k in (i, j):
